@@ -608,7 +608,11 @@ class DateTime(Element):
 
             gmt_offset_hours = utils.TZS[tz_name]
 
-        return utils.gmt_offset(gmt_offset_hours, int(minutes or 0))
+        offset = utils.gmt_offset(gmt_offset_hours, int(minutes or 0))
+        # int("-0") loses the sign: "[-0.30]" is 30 minutes west of GMT
+        if gmt_offset_hours == 0 and hours is not None and hours.startswith("-"):
+            offset = -offset
+        return offset
 
     def normalize_to_gmt(self, value, gmt_offset):
         # Adjust timezone to GMT/UTC
